@@ -68,7 +68,17 @@ StepOf(e) == CASE e.ev = "MRecvStartEngine" -> MRecvStartEngine
                [] OTHER -> FALSE
 
 L1Clauses == {"StartedOnlyWhenAll", "StopAtMostOnce", "StoppedOnlyWhenAll", "ExternalUntouched", "NoStall", "FaultReported",
-              "TeardownStopsAll", "ExternalAnswered", "ShutdownMetricsStored"}
+              "TeardownStopsAll", "ExternalAnswered", "ShutdownMetricsStored", "AckedOnlyWhenDone", "StopNeverRaises",
+              "StopHandlesAll"}
+
+(* action-level: a host that handles a stop request (StopNodes, or the ActorExitRequest at teardown) while it still has its  *)
+(* mechanic leaves none of the nodes it started behind: every one of them is done afterwards (handled by the stop exactly   *)
+(* once, terminated / killed as its process requires, system metrics stored, the host's store flushed, results stored where *)
+(* the race is known, installation removed unless preserve) - whatever has become of the processes of the nodes listed      *)
+(* before it.  Unprimed = the recorded state before the handler ran.                                                        *)
+StopHandlesAll(e) ==
+    (e.ev \in {"NRecvStopNodes", "NRecvExit"} /\ H(e) /\ na[e.a].eng = "set") =>
+        \A n \in NodeIds(scn) : (HostOf(scn, n) = e.a /\ nd[n].starts >= 1) => NodeDone(n)'
 
 Holds(c, e) ==
     CASE c = "StartedOnlyWhenAll" -> StartedOnlyWhenAll'
@@ -80,6 +90,9 @@ Holds(c, e) ==
       [] c = "TeardownStopsAll" -> TeardownStopsAll'
       [] c = "ExternalAnswered" -> ExternalAnswered'
       [] c = "ShutdownMetricsStored" -> ShutdownMetricsStored'
+      [] c = "AckedOnlyWhenDone" -> AckedOnlyWhenDone'
+      [] c = "StopNeverRaises" -> StopNeverRaises'
+      [] c = "StopHandlesAll" -> StopHandlesAll(e)
 
 StartTrace ==
     /\ tid < Len(Traces) /\ (IF tid = 0 THEN TRUE ELSE l > Len(Traces[tid].events))
@@ -93,7 +106,7 @@ StartTrace ==
                           /\ nd' = [n \in NodeIds(tr.scn) |-> InitNd]
                           /\ ho' = [h \in Hosts(tr.scn) |-> 0]
                           /\ env'.up \subseteq RemoteTargets(tr.scn)
-                          /\ env' = [up |-> env'.up, left |-> {}, fault |-> "none", stopSent |-> FALSE, resets |-> 0, torn |-> FALSE, procs |-> 0, cyc |-> 1, stale |-> 0]
+                          /\ env' = [up |-> env'.up, left |-> {}, fault |-> "none", stopSent |-> FALSE, resets |-> 0, torn |-> FALSE, procs |-> 0, cyc |-> 1, stale |-> 0, esc |-> 0]
                           /\ plan' = tr.plan
                           /\ tr.init.other = 0
             IN IF initOk THEN TRUE ELSE PrintT(<<"V", tr.id, 0, "L2", {}>>)
